@@ -125,11 +125,11 @@ def gen(rng, tier):
         tot = TOTAL(dims)
         for fam in fams_for(dims):
             coef = [1 + rng.below(7), 10 + rng.below(7), 100 + rng.below(7), rng.below(5)]
-            probes = [(4, 0), (5, 0), (6, 0), (7, 1)]
+            probes = [(4, 0), (5, 0), (6, 0), (7, 0)] + [(kd, k) for kd in (4, 5, 7) for k in sorted({1, dims[-1] + 1} & set(range(1, tot + 1)))]
             ks = sorted({0, 1, 2, dims[-1], dims[-1] + 1, 2 * dims[-1], tot - 1, tot, tot + 1} & set(range(0, tot + 2)))
             probes += [(1, k) for k in ks] + [(2, k) for k in ks if k > 0] + [(3, st) for st in (2, 3, dims[-1] + 1)]
             if tier == "quick":
-                probes = [pr for pr in probes if pr[0] in (4, 5, 6) or rng.chance(1, 2)]
+                probes = [pr for pr in probes if (pr[0] in (4, 5, 6) and pr[1] == 0) or rng.chance(1, 2)]
             for kind, k in probes:
                 out.append(Case("arr_iter_adapt", "i64", fam, "-", dims, coef + [kind, k], mop="-",
                                 tag="iter_adaptors_rank%d_%s" % (len(dims), fam)))
@@ -143,7 +143,7 @@ def lex(dims):
     return out
 
 
-ADAPT_NAMES = {1: "nth(%d) then next()", 2: "skip(%d)", 3: "step_by(%d)", 4: "count()", 5: "last()",
+ADAPT_NAMES = {1: "nth(%d) then next()", 2: "skip(%d)", 3: "step_by(%d)", 4: "%d x next() then count()", 5: "%d x next() then last()",
                6: "size_hint() then next()", 7: "%d x next() then fold"}
 
 
@@ -162,9 +162,9 @@ def adapt_predicates(c, ri):
     elif kind == 3:
         want = L[::max(k, 1)] + tail
     elif kind == 4:
-        want = [len(L)]
+        want = [len(L[k:])]
     elif kind == 5:
-        want = [L[-1]] if L else [-2]
+        want = [L[-1]] if L[k:] else [-2]
     elif kind == 6:
         lo, hi = log[0], log[1]
         if lo > len(L) or (hi != -1 and hi < len(L)):
